@@ -43,7 +43,7 @@ PARTIAL = ['tri_outline_w1 (clause 6: the 1px outline is the union of its three 
            'Inside alignment: between the (y,x)-sorted vertices): no theorem in this part (C19_join_tri_outline_w1_partial of the join part covers the three edge scanlines, '
            'not their merge); compared by p_tri_outline for all three alignments',
            'clause 1 for triangles with fill AND a stroke of width >= 1: no theorem (thick-stroke pipeline); searched by p_tri_cover (full clause for widths 0, 1 and Outside alignment; '
-           'wider Inside/Center strokes: lattice points farther than width + 1 from every edge; see FINDINGS-C19.md "observations outside the property")']
+           'wider Inside/Center strokes: lattice points farther than width + 1 from every edge; see notes/findings/FINDINGS-C19.md "observations outside the property")']
 
 PTS3 = [(x, y) for y in range(3) for x in range(3)]
 PTS4 = [(0, 0), (2, 1), (1, 2), (-1, 3)]     # 4 points in general position (steep, shallow and diagonal segments)
